@@ -8,16 +8,17 @@ from . import walkfam as W
 from . import c13, tokens as T
 
 EXPLANATION = (
-    "The equivalence with per-entry filtering depends on the soundness of the exhaustiveness verdict (C09), which is NOT "
-    "decided and is known to be violated (`**/{a}`).  Decided is the plumbing of the verdict: (partition) the negation's "
-    "alternatives go to the exhaustive side only when is_exhaustive() is `always`, and the two sides reach "
-    "FilterAnyProgram::try_from_partitions and its fields unswapped; (verdict) FilterAnyProgram::residue over all four "
-    "program variants x match outcomes answers Tree only when the exhaustive program matches, File only when the "
-    "non-exhaustive one matches, None otherwise; (candidate) the text matched is the entry's root-relative path; (apply) "
-    "Not::feed applies the verdict to filtrate and residue alike, once, cancelling its own input (shared with C13 / C16); "
-    "(collapse) into_non_trivial / into_alternatives only collapse branches without semantic effect and keep every "
-    "alternative.")
-RULES = "C03.partition (TABLE+PROV), C03.verdict (TABLE), C03.candidate (PROV), C03.apply (= C16.apply for Not), C03.collapse (TABLE)"
+    "Discarding a tree equals discarding each entry beneath it iff the verdict `always exhaustive` is sound: (sound) that is "
+    "decided on the expression catalogue of C09.sound (verdict of the whole fold vs. the language of the emitted program, "
+    "for ~6 500 / ~30 000 small expressions; same computation, shared through a cache), not for all expressions.  The "
+    "plumbing of the verdict is decided for all inputs: (partition) the negation's alternatives go to the exhaustive side "
+    "only when is_exhaustive() is `always`, and the two sides reach FilterAnyProgram::try_from_partitions and its fields "
+    "unswapped; (verdict) FilterAnyProgram::residue over all four program variants x match outcomes answers Tree only "
+    "when the exhaustive program matches, File only when the non-exhaustive one matches, None otherwise; (candidate) the "
+    "text matched is the entry's root-relative path; (apply) Not::feed applies the verdict to filtrate and residue alike, "
+    "once, cancelling its own input (shared with C13 / C16); (collapse) into_non_trivial / into_alternatives only collapse "
+    "branches without semantic effect and keep every alternative.")
+RULES = "C03.sound (= C09.sound), C03.partition (TABLE+PROV), C03.verdict (TABLE), C03.candidate (PROV), C03.apply (= C16.apply for Not), C03.collapse (TABLE)"
 
 FAP = "walk::glob::FilterAnyProgram"
 WHEN = "query::When"
@@ -26,14 +27,17 @@ WHEN = "query::When"
 def run(ctx):
     F = ctx.facts()
     R = ctx.report
-    R.assume("an `always exhaustive` verdict is sound (C09: not decided; known false positives make negated walks drop files)")
-    R.undecided("that discarding a tree is equivalent to discarding each entry beneath it (needs C09)")
+    R.assume("regex crate semantics; walkdir semantics (C13)")
+    R.undecided("soundness of the exhaustiveness verdict outside the catalogue (C09); known and recorded: optional repetitions")
     rule_partition(F, R)
     rule_programs(F, R)
     rule_verdict(F, R)
     rule_candidate(F, R)
     c13.rule_feeds(F, R, "C03")
     rule_collapse(F, R)
+    # discarding a tree equals discarding each entry beneath it iff the verdict `always` is sound (shared with C09)
+    from . import exhaust
+    exhaust.report(F, R, "C03.sound", ctx.tier)
 
 
 def rule_partition(F, R):
